@@ -2,6 +2,7 @@
 import ast
 
 GEN_NAME = "Acl"
+EXTRA_GEN = {"AclMatch": "emit_match"}
 
 from harness.extract.util import class_def, find_method, parse, src_of
 
@@ -66,4 +67,46 @@ def removeBound : Nat := {rem_b}
 def scanIsForward : Bool := {"true" if iter_src == "self._acl" else "false"}
 def scanBreaksAtFirstMatch : Bool := {"true" if has_break else "false"}
 end Primaite.Gen.Acl
+"""
+
+
+def emit_match() -> str:
+    """E3: `ip_matches_masked_range` and `ACLRule.permit_frame_check` translated statement by statement."""
+    from harness.extract.pyexpr import translate_imperative
+    from harness.extract.util import find_function
+    tree = parse("simulator/network/hardware/nodes/network/router.py")
+    f1 = find_function(tree, "ip_matches_masked_range")
+    ipm = translate_imperative(f1, "ipMatchesMaskedRange", "(ip_to_check base_ip wildcard_mask : BitVec 32)",
+                               {"ip_to_check": ("ip_to_check", "bv"), "base_ip": ("base_ip", "bv"), "wildcard_mask": ("wildcard_mask", "bv")},
+                               "Bool")
+    rule = class_def(tree, "ACLRule")
+    f2 = find_method(rule, "permit_frame_check")
+    env = {
+        "True": ("true", "bool"), "False": ("false", "bool"),
+        "self.protocol": ("r.proto", "opt"), "frame.ip.protocol": ("f.proto", "proto"),
+        "self.src_ip_address": ("r.srcIp", "opt_ip"), "self.src_wildcard_mask": ("r.srcWc", "opt_ip"),
+        "self.dst_ip_address": ("r.dstIp", "opt_ip"), "self.dst_wildcard_mask": ("r.dstWc", "opt_ip"),
+        "frame.ip.src_ip_address": ("f.srcIp", "ip"), "frame.ip.dst_ip_address": ("f.dstIp", "ip"),
+        "self.src_port": ("r.srcPort", "optnat"), "self.dst_port": ("r.dstPort", "optnat"),
+        "frame.tcp": ("f.tcp", "opt"), "frame.udp": ("f.udp", "opt"),
+        "frame.tcp.src_port": ("(f.tcp.map Prod.fst)", "optnat"), "frame.tcp.dst_port": ("(f.tcp.map Prod.snd)", "optnat"),
+        "frame.udp.src_port": ("(f.udp.map Prod.fst)", "optnat"), "frame.udp.dst_port": ("(f.udp.map Prod.snd)", "optnat"),
+        "self.action": ("r.action", "action"), "ACLAction.PERMIT": ("Primaite.Acl.Action.permit", "action"),
+        "call:ip_matches_masked_range": ("ipMatchesMaskedRange", "ip_to_check,base_ip,wildcard_mask"),
+    }
+    pfc = translate_imperative(f2, "permitFrameCheck", "(r : Primaite.Acl.Rule) (f : FrameView)", env, "Bool × Bool")
+    return f"""import PrimaiteModel.Model.Acl
+namespace Primaite.Gen.AclMatch
+/-- what `permit_frame_check` reads from a frame -/
+structure FrameView where
+  proto : Primaite.Acl.Proto
+  srcIp : BitVec 32
+  dstIp : BitVec 32
+  tcp : Option (Nat × Nat)
+  udp : Option (Nat × Nat)
+/-- `ip_matches_masked_range`, translated statement by statement -/
+{ipm}
+/-- `ACLRule.permit_frame_check`, translated statement by statement (Python truthiness by declared type) -/
+{pfc}
+end Primaite.Gen.AclMatch
 """
